@@ -224,9 +224,25 @@ async def _scenario(loop, case: dict):
         def _limits():
             return {'accept': ghost['accept'], 'max': ghost['max'], 'defined': ghost['defined']}
 
+        # (c) the branch position every distributed connection has ANNOUNCED so far, by the protocol's own rule
+        # (docs/source/SOULSEEK.rst / DESIGN.rst: a DistributedBranchLevel sets the level, level 0 means "I am the root
+        # of my branch" — the root is then the peer's own name and need not be sent; a DistributedBranchRoot sets the
+        # root), applied to the messages in the order in which they are handed over. This — not the library's own
+        # bookkeeping (`DistributedPeer.branch_level / branch_root`) — is the monitor's truth for "the parent's level
+        # and root".
+        announced: dict = {}          # connection id -> [level, root]
+
         def probe_message(event: MessageReceivedEvent):
             msg = event.message
             if not isinstance(event.connection, ServerConnection):
+                if isinstance(msg, (m.DistributedBranchLevel.Request, m.DistributedBranchRoot.Request)):
+                    a = announced.setdefault(_cid_of_conn(event.connection), [None, None])
+                    if isinstance(msg, m.DistributedBranchLevel.Request):
+                        a[0] = msg.level
+                        if msg.level == 0:
+                            a[1] = unum(event.connection.username)
+                    else:
+                        a[1] = unum(msg.username)
                 return
             if isinstance(msg, m.ParentMinSpeed.Response):
                 ghost['ms'] = msg.speed
@@ -374,6 +390,7 @@ async def _scenario(loop, case: dict):
                 fr = [f.username for f in (r.frames if r else []) if isinstance(f, m.DistributedBranchRoot.Request)]
                 peers.append({'c': c, 'name': unum(p.username), 'level': p.branch_level,
                               'root': unum(p.branch_root),
+                              'ann': list(announced.get(c, [None, None])),
                               'toldL': fl[-1] if fl else None, 'toldR': unum(fr[-1]) if fr else None,
                               'nL': len(fl), 'nR': len(fr),
                               'state': p.connection.state.name,
@@ -397,6 +414,8 @@ async def _scenario(loop, case: dict):
                 'parent_name': None if dn.parent is None else unum(dn.parent.username),
                 'parent_level': None if dn.parent is None else dn.parent.branch_level,
                 'parent_root': None if dn.parent is None else unum(dn.parent.branch_root),
+                # what the parent's connection has announced, by the protocol rule (independent of the library's books)
+                'parent_ann': None if dn.parent is None else list(announced.get(cid(dn.parent), [None, None])),
                 'parent_state': None if dn.parent is None else dn.parent.connection.state.name,
                 'parent_in_peers': None if dn.parent is None else any(p is dn.parent for p in dn.distributed_peers),
                 'children': [cid(p) for p in dn.children],
@@ -744,16 +763,19 @@ def _monitor(case: dict, trace: list) -> list[Violation]:
         pending = still
         # --- truthfulness (only while logged in: "own name" is the session's user)
         if s['session'] and s['dn_session']:
+            # "the parent's level and root" are what the parent's connection ANNOUNCED last, by the protocol rule
+            # (level 0 => the peer is its own root; see `announced` in `_scenario`) — not what the library noted
+            pl, pr = s.get('parent_ann') or (None, None)
             if s['parent'] is None:
                 derived = (0, ME, True)
-            elif s['parent_level'] is None or s['parent_root'] is None:
+            elif s['parent_level'] is None or s['parent_root'] is None or pl is None or pr is None:
                 add('C13-parent-incomplete', f'parent {s["parent_name"]} has level {s["parent_level"]} root '
-                    f'{s["parent_root"]}', k)
+                    f'{s["parent_root"]} (announced: level {pl} root {pr})', k)
                 continue
-            elif s['parent_root'] == ME:
+            elif pr == ME:
                 continue                      # degenerate announcement: nothing demanded
             else:
-                derived = (s['parent_level'] + 1, s['parent_root'], False)
+                derived = (pl + 1, pr, False)
             told = (s['srv_level'], s['srv_root'], s['srv_search'])
             if told != derived:
                 add('C13-server-not-told', f'server was last told level/root/search {told}, position derived from '
@@ -867,7 +889,8 @@ def _gen_case(rng: random.Random, kind: Optional[str] = None) -> dict:
     roots = peers + [5, 6, 6, 5, ME] if rng.random() < 0.25 else peers + [5, 6, 6, 5]
     kind = kind or rng.choice(['random', 'random', 'parent', 'parent', 'child', 'child', 'session', 'limits',
                                'overflow', 'burst', 'gate', 'gate', 'gate', 'sgate', 'sgate', 'sgate', 'cfault',
-                               'cfault', 'cfault', 'reparent', 'wire', 'wire', 'wire', 'eager', 'eager'])
+                               'cfault', 'cfault', 'reparent', 'wire', 'wire', 'wire', 'eager', 'eager',
+                               'rootrule', 'rootrule'])
     ops: list = []
     nconn = 0
     up = False
@@ -1077,6 +1100,48 @@ def _gen_case(rng: random.Random, kind: Optional[str] = None) -> dict:
                 do(o)
         if rng.random() < 0.4:
             do(['in', rng.choice(peers)])
+    elif kind == 'rootrule':
+        # the protocol's implicit root: a peer whose root is already KNOWN (announced explicitly before) announces level 0
+        # and no root after it — it has become the root of its own branch — as parent (it lost its own parent) or as
+        # candidate (root first, then level 0), with children present; afterwards a level alone (the root stays the
+        # peer's own name), an explicit root, level 0 again, a new child, session loss / re-login, loss of the parent
+        others = [r for r in roots if r != ME]
+        if not up:
+            do(['session'])
+        a = rng.choice(peers)
+        knames = [q for q in peers if q != a] if rng.random() < 0.85 else peers
+        for _ in range(rng.choice([0, 1, 1, 2])):
+            do(['in', rng.choice(knames)])
+        pc = nconn
+        rt = rng.choice([r for r in others if r != a] or others)
+        lv = rng.choice([1, 1, 2, 3, 7])
+        how = rng.choice(['parent-lr', 'parent-rl', 'candidate', 'zero-then-root', 'eager', 'incoming'])
+        if how == 'eager':
+            do(['ppe', a, rng.choice([[['root', rt], ['level', 0]], [['level', lv], ['root', rt], ['level', 0]],
+                                      [['root', rt], ['level', lv], ['level', 0]]]), rng.choice([-1, 0, 1, 2, 4])])
+        elif how == 'incoming':
+            if rng.random() < 0.5:                             # (a proposed parent that connects by itself)
+                do(['pp', [a]])
+            pc = nconn
+            do(['ine', a, [['root', rt], ['level', 0]]])
+        else:
+            do(['pp', [a]])
+            pre = {'parent-lr': [['level', pc, lv], ['root', pc, rt]], 'parent-rl': [['root', pc, rt], ['level', pc, lv]],
+                   'candidate': [['root', pc, rt]], 'zero-then-root': [['level', pc, 0], ['root', pc, rt]]}[how]
+            for o in pre:
+                do(o)
+            if rng.random() < 0.3:
+                do(rng.choice([['in', rng.choice(peers)], ['root', pc, rng.choice(others)], ['level', pc, lv + 1]]))
+            do(['level', pc, 0])                                  # ... and no root behind it
+        for _ in range(rng.choice([0, 1, 1, 2, 3])):
+            do(rng.choice([['in', rng.choice(knames)], ['level', pc, rng.choice([1, 2, 5])], ['level', pc, 0],
+                           ['root', pc, rng.choice(others)], ['level', pc, rng.choice([1, 2, 5])],
+                           ['close', pc] if rng.random() < 0.3 else ['level', pc, 0]]))
+        if rng.random() < 0.25:
+            do(['lost'])
+            if rng.random() < 0.5:
+                do(rng.choice([['level', pc, 0], ['in', rng.choice(peers)], ['level', pc, 3]]))
+            do(['session'])
     elif kind == 'overflow':
         first = rng.choice(peers)
         do(['pp', [first]])
@@ -1539,6 +1604,14 @@ WITNESSES = {
     'eager-two-candidates-at-once': {'ops': [['session'], ['in', 3],
                                              ['burst', [['ppe', 1, [['level', 0]], 2], ['ppe', 2, [['level', 0]], 2]]],
                                              ['in', 3]], 'kind': 'witness'},
+    # the protocol's implicit root: level 0 with a root already known and no root behind it (parent / candidate)
+    'rootrule-parent-falls-back-to-level-0': {'ops': [['session'], ['in', 2], ['pp', [1]], ['level', 1, 2],
+                                                      ['root', 1, 5], ['level', 1, 0], ['level', 1, 4], ['root', 1, 6]],
+                                              'kind': 'witness'},
+    'rootrule-candidate-root-then-level-0': {'ops': [['session'], ['in', 2], ['pp', [1]], ['root', 1, 5],
+                                                     ['level', 1, 0], ['in', 3]], 'kind': 'witness'},
+    'rootrule-eager-root-then-level-0': {'ops': [['session'], ['in', 2], ['ppe', 1, [['root', 5], ['level', 0]], 1],
+                                                 ['lost'], ['session']], 'kind': 'witness'},
     # suspended sends to the server / per-child write outcomes (compared with the model step by step)
     'sgate-acceptance-off-during-send': {'ops': [['session'], ['sblock'], ['stats', 0, 0], ['in', 2], ['srelease']],
                                          'kind': 'witness', 'strict': True},
@@ -1581,6 +1654,10 @@ class C13(Property):
             'families; "eager": a proposed parent announces its branch values by itself -1..6 loop iterations after '
             'it has read our PeerInit — while the library\'s connection request is still wrapping up — alone, after a '
             'pending candidate, as second parent, incompletely, after a loss, two at once [monitor only]; '
+            '"rootrule": a peer whose root is already known (announced explicitly: as parent in either order, as '
+            'candidate root-first, after a level 0, eagerly, on an incoming connection) announces level 0 and NO root '
+            'behind it, with 0-2 children; then a level alone, an explicit root, level 0 again, a new child, loss of '
+            'the parent, session loss / re-login; '
             '"gate": drain() of a chosen '
             'socket blocks while 1-2 further events are handled [monitor only]; "sgate": the SERVER socket stops '
             'draining, a handler that sends to the server (statistics lowering / raising / switching off the child '
@@ -1618,6 +1695,12 @@ class C13(Property):
         'a listener doing what client.py:367-373 does. The server must have been told the derived position at every '
         'quiescent point, the children at every quiescent point at which no socket is held back (the code tells '
         'the server first and awaits that send before it tells the children)',
+        '"the parent\'s level and root" (from which the derived position is computed) are what the parent\'s '
+        'connection ANNOUNCED, folded by the protocol\'s own rule over the DistributedBranchLevel / DistributedBranchRoot '
+        'messages in the order in which they are handed over (a plain priority-0 bus listener registered before the '
+        'manager records them): a level sets the level, level 0 makes the peer its own root whatever root it announced '
+        'before (no root message need follow), a root sets the root (Spec/DistAnnounced.lean, '
+        'C13_position_is_announced) — NOT the manager\'s own DistributedPeer.branch_level / branch_root',
         'child admission is judged at the moment the manager is handed the PeerInitializedEvent (a plain listener '
         'with priority 0 on the event bus records it) against the limits that follow from the own-user statistics '
         'HANDED to the manager so far: a new limit binds from the moment the GetUserStats response is handed over '
